@@ -109,7 +109,9 @@ type Kernel struct {
 	NextPid    int
 	NextFile   int
 	FaultsLeft int    // K-FAULT: how many more calls may fail
-	FaultAt    string // site of the injected fault ("" none)
+	FaultAt    string // site of the injected fault ("" none), as "<site>#<occurrence>"
+	FaultSeen  map[string]int
+	FaultProc  int
 	FaultErrno syscall.Errno
 	FaultIdx   int
 	ExecFails  bool // the program file is not executable (ENOEXEC/EACCES from execve)
@@ -204,11 +206,22 @@ func (k *Kernel) fault(site string) (syscall.Errno, bool) {
 	if k.FaultsLeft <= 0 {
 		return 0, false
 	}
+	if k.FaultSeen == nil {
+		k.FaultSeen = map[string]int{}
+	}
+	k.FaultSeen[site]++
 	if sym.Bool("fault_" + site) {
 		k.FaultsLeft--
 		e := syscall.Errno(sym.Uintptr("errno"))
-		sym.Assume(e >= 1 && e <= 133 && e != syscall.EINTR && e != syscall.ETXTBSY && e != syscall.EEXIST && e != syscall.ESRCH)
+		sym.Assume(e >= 1)
+		sym.Assume(e <= 133)
+		sym.Assume(e != syscall.EINTR)
+		sym.Assume(e != syscall.ETXTBSY)
+		sym.Assume(e != syscall.EEXIST)
+		sym.Assume(e != syscall.ESRCH)
 		k.FaultAt = site
+		k.FaultIdx = k.FaultSeen[site]
+		k.FaultProc = k.Cur().Pid
 		k.FaultErrno = e
 		return e, true
 	}
@@ -468,7 +481,6 @@ func (k *Kernel) syscall(trap, a1, a2, a3, a4, a5, a6 uintptr) (r1, r2 uintptr, 
 	case syscall.SYS_PRLIMIT64:
 		p.log("prlimit64")
 		if e, f := k.fault("prlimit64"); f {
-			k.FaultIdx = len(p.Rlim)
 			return errRet, 0, e
 		}
 		if a1 != 0 {
@@ -613,8 +625,10 @@ func (k *Kernel) sysExec(p *Proc, path string, fd int, emptyPath bool) (uintptr,
 // K-SOCK (stream): read blocks until data or until every writer end is closed (EOF).
 func (k *Kernel) sysRead(p *Proc, fd int, buf uintptr, n int) (uintptr, uintptr, syscall.Errno) {
 	p.log("read")
-	if e, f := k.fault("read"); f {
-		return errRet, 0, e
+	if p != k.Host() {
+		if e, f := k.fault("read"); f {
+			return errRet, 0, e
+		}
 	}
 	ent, ok := p.Fds[fd]
 	if !ok || ent == nil || ent.File.S == nil {
@@ -640,8 +654,10 @@ func (k *Kernel) sysRead(p *Proc, fd int, buf uintptr, n int) (uintptr, uintptr,
 
 func (k *Kernel) sysWrite(p *Proc, fd int, buf uintptr, n int) (uintptr, uintptr, syscall.Errno) {
 	p.log("write")
-	if e, f := k.fault("write"); f {
-		return errRet, 0, e
+	if p != k.Host() {
+		if e, f := k.fault("write"); f {
+			return errRet, 0, e
+		}
 	}
 	ent, ok := p.Fds[fd]
 	if !ok || ent == nil {
@@ -669,7 +685,6 @@ func (k *Kernel) sysMount(p *Proc, src, tgt, fst, flags, data uintptr) (uintptr,
 		p.PrivAfterFilter = "mount"
 	}
 	if e, f := k.fault("mount"); f {
-		k.FaultIdx = len(p.Mounts)
 		return errRet, 0, e
 	}
 	if p.CapEff&(1<<21) == 0 {
